@@ -25,6 +25,7 @@ struct hazard_era;
  * get()/mark() return what the constructor was given; reading the other alternative yields an arbitrary value. */
 struct hev { uintptr_t w; struct hazard_era* lp; unsigned char mark; };
 struct hazard_era { struct hev value; uint64_t guard_cnt; };
+static era_t slot_era(const struct hazard_era* s);
 struct he_block { struct he_block* next; size_t size; };       /* dynamic strategy: header, the slots follow in memory */
 typedef struct he_block xv_block_header_t;
 struct tcb { struct hazard_era* last_hazard_era; era_t last_era; struct hazard_era eras[XV_K]; size_t total_number_of_hes; struct he_block* he_block; };
@@ -71,6 +72,7 @@ static _Bool slot_live(int i) {
 struct thread_data g_td;
 era_t era_clock; size_t g_number_of_active_hes; uintptr_t g_ptr_mask; int global_thread_block_list;
 mptr g_src;                             /* the concurrent_ptr acquire reads */
+era_t g_src_ctor;                        /* ghost: construction era of the object INCARNATION currently published in g_src (addresses are re-used: the same word can name a younger object later) */
 struct guard ga, gb;                    /* operand guards */
 uint64_t g_others[NSLOT];               /* ghost: number of live guards other than the operands that hold slot i */
 struct obj g_obj; mptr g_obj_word; size_t g_threshold; unsigned g_scan_calls, g_acquire_entry_calls;
@@ -200,8 +202,10 @@ _Bool env_on;
 void xv_env(void) { }
 static void env_act(void* addr) {
   if (!env_on) return;
-  if (addr == (void*)&g_src) g_src = nondet_uptr();
-  if (addr == (void*)&era_clock) { era_t n = nondet_u64(); if (n >= era_clock && n < ERA_MAX) era_clock = n; }   /* rely: the era clock never decreases */
+  { era_t n = nondet_u64(); if (n >= era_clock && n < ERA_MAX) era_clock = n; }   /* rely: the era clock never decreases (it may advance before either load: the ghost construction era below relates the two cells) */
+  if (addr == (void*)&g_src && nondet_bool()) {      /* somebody replaces the published object: any word (also the same address again = ABA), */
+    g_src = nondet_uptr(); g_src_ctor = nondet_u64(); XV_ASSUME(g_src_ctor <= era_clock);   /* constructed before it was published, hence not after the current era */
+  }
 }
 #else
 #define env_act(addr) ((void)0)
@@ -209,6 +213,11 @@ static void env_act(void* addr) {
 
 /* ---------------- monitors ---------------- */
 uint64_t mon_src_loads, mon_first_src_clk, mon_last_src_clk, mon_last_era_clk, mon_era_loads;
+/* protect side of C01 for hazard eras, taken from what the reclaim side does (scan deletes a retired object unless some published era e has
+ * construction_era <= e <= retirement_era): the object I the guard ends up with was published in the source at the load that produced the
+ * result (time t).  I is retired after t, so retirement_era(I) >= era_clock(t).  Hence I is protected iff the guard's slot published, before t
+ * and unchanged since, an era e with  construction_era(I) <= e <= era_clock(t). */
+era_t mon_last_src_ctor, mon_last_src_eraclk, mon_last_src_slot_era; struct hazard_era* mon_last_src_he; uint64_t mon_last_slot_store_clk; _Bool mon_slot_stored;
 mptr mon_first_src_val, mon_last_src_val; era_t mon_last_era_val; int mon_first_src_order, mon_last_src_order;
 _Bool mon_unfenced_era_store, mon_src_load_unfenced, mon_last_slot_store_release = 1;
 static void mon_load(void* addr, int order) {
@@ -216,12 +225,14 @@ static void mon_load(void* addr, int order) {
   if (addr == (void*)&g_src) {
     if (mon_src_loads == 0) { mon_first_src_clk = xv_clock; mon_first_src_val = g_src; mon_first_src_order = order; }
     mon_src_loads++; mon_last_src_clk = xv_clock; mon_last_src_val = g_src; mon_last_src_order = order; mon_src_load_unfenced = mon_unfenced_era_store;
+    mon_last_src_ctor = g_src_ctor; mon_last_src_eraclk = era_clock; mon_last_src_he = ga.he; mon_last_src_slot_era = (ga.he != 0 && ga.he->value.mark == 0) ? slot_era(ga.he) : 0;
   }
   if (addr == (void*)&era_clock) { mon_era_loads++; mon_last_era_clk = xv_clock; mon_last_era_val = era_clock; }
 }
 static void mon_store(void* addr, int order) {
   for (int i = 0; i < NSLOT; i++) if (slot_live(i) && addr == (void*)&SLOT(i)->value) {
     if (SLOT(i)->value.mark == 0) mon_unfenced_era_store = 1;          /* an era was published ... */
+    mon_slot_stored = 1; mon_last_slot_store_clk = xv_clock;
     if (!XV_IS_RELEASE(order)) mon_last_slot_store_release = 0;
   }
 }
@@ -377,6 +388,7 @@ static void havoc_state(const struct guard* a, const struct guard* b) {
   g_obj.next = 0; g_obj.construction_era = nondet_u64(); g_obj.retirement_era = nondet_u64(); g_obj.deleter = nondet_int(); g_obj.set_deleter_calls = 0;
   g_src = nondet_uptr(); g_scan_calls = 0; g_acquire_entry_calls = 0; xv_threw = 0; xv_clock = nondet_u64(); XV_ASSUME(xv_clock < CNT_MAX);
   mon_src_loads = 0; mon_era_loads = 0; mon_unfenced_era_store = 0; mon_src_load_unfenced = 0; mon_last_slot_store_release = 1;
+  g_src_ctor = nondet_u64(); XV_ASSUME(g_src_ctor <= era_clock); mon_slot_stored = 0; mon_last_slot_store_clk = 0;
   XV_ASSUME(inv_assumed(a, b));
   if (a) XV_ASSUME(gi1(a) && gi2(a));
   if (b) XV_ASSUME(gi1(b) && gi2(b));
@@ -395,8 +407,19 @@ static void chk_exit(const struct guard* a, const struct guard* b) {
 /* loop invariant of acquire's retry loop (self = the guard, prev_era = local) */
 #define XV_INV_ACQ (self == &ga && !xv_threw && inv_ok(&ga, &gb) && gi1(&ga) && others_intact(&gb) && guard_eq(&gb, &pre_b) \
    && (ga.he == 0 ? prev_era == 0 : prev_era == slot_era(ga.he)) \
-   && !mon_unfenced_era_store && mon_last_slot_store_release && xv_clock >= g_clk0 && era_clock >= pre_clock)
+   && !mon_unfenced_era_store && mon_last_slot_store_release && xv_clock >= g_clk0 && era_clock >= pre_clock && g_src_ctor <= era_clock && (!mon_slot_stored || mon_last_slot_store_clk <= xv_clock))
 #define XV_HAVOC_ACQ acq_havoc(); XV_ASSUME(xv_clock < CNT_MAX && mon_src_loads < CNT_MAX && mon_era_loads < CNT_MAX); self->he = any_slot_or_null(); self->ptr = nondet_uptr(); prev_era = nondet_u64()
+/* loop invariant of acquire_if_equal's publish-and-revalidate loop (p1 = the value of the last load of the source, prev_era = the era the guard's slot publishes).
+ * The load that produced p1 lies BEFORE the loop head, so the facts about it that the exit needs are carried here. */
+#define XV_INV_AIE (self == &ga && !xv_threw && inv_ok(&ga, &gb) && gi1(&ga) && others_intact(&gb) && guard_eq(&gb, &pre_b) \
+   && (ga.he == 0 ? prev_era == 0 : prev_era == slot_era(ga.he)) \
+   && !mon_unfenced_era_store && mon_last_slot_store_release && xv_clock >= g_clk0 && era_clock >= pre_clock && g_src_ctor <= era_clock \
+   && p1 == expected && p1 != 0 && mon_src_loads >= 1 && mon_last_src_val == p1 && mon_last_src_clk >= g_clk0 && mon_last_src_clk <= xv_clock \
+   && XV_IS_ACQUIRE(mon_last_src_order) && mon_last_src_order != mo_consume && !mon_src_load_unfenced \
+   && mon_last_src_ctor <= mon_last_src_eraclk && mon_last_src_eraclk <= era_clock \
+   && mon_last_src_he == ga.he && (ga.he == 0 || (mon_last_src_slot_era == slot_era(ga.he) && slot_era(ga.he) <= mon_last_src_eraclk)) \
+   && (!mon_slot_stored || mon_last_slot_store_clk < mon_last_src_clk))
+#define XV_HAVOC_AIE acq_havoc(); XV_ASSUME(xv_clock < CNT_MAX && mon_src_loads < CNT_MAX && mon_era_loads < CNT_MAX); self->he = any_slot_or_null(); self->ptr = nondet_uptr(); prev_era = nondet_u64(); p1 = nondet_uptr()
 static void acq_havoc(void) {
   for (int i = 0; i < NSLOT; i++) {
     SLOT(i)->guard_cnt = nondet_u64(); SLOT(i)->value.mark = nondet_bool(); SLOT(i)->value.lp = any_slot_or_null(); SLOT(i)->value.w = nondet_uptr(); g_pos[i] = nondet_uchar(); g_at[i + 1] = nondet_uchar();
@@ -409,6 +432,8 @@ static void acq_havoc(void) {
   mon_src_loads = nondet_u64(); mon_era_loads = nondet_u64(); mon_first_src_clk = nondet_u64(); mon_last_src_clk = nondet_u64(); mon_last_era_clk = nondet_u64();
   mon_first_src_val = nondet_uptr(); mon_last_src_val = nondet_uptr(); mon_last_era_val = nondet_u64(); mon_first_src_order = nondet_int(); mon_last_src_order = nondet_int();
   mon_unfenced_era_store = nondet_bool(); mon_src_load_unfenced = nondet_bool(); mon_last_slot_store_release = nondet_bool();
+  g_src_ctor = nondet_u64(); mon_last_src_ctor = nondet_u64(); mon_last_src_eraclk = nondet_u64(); mon_last_src_slot_era = nondet_u64(); mon_last_src_he = any_slot_or_null();
+  mon_last_slot_store_clk = nondet_u64(); mon_slot_stored = nondet_bool();
 }
 
 #include "lowered.h"
@@ -798,7 +823,7 @@ static void op_acquire(void) {
 static void op_acquire_if_equal(void) {
   havoc_guard(&ga, &in_a_he, &in_a_ptr); havoc_guard(&gb, &in_b_he, &in_b_ptr); havoc_state(&ga, &gb);
   in_src = g_src; in_expected = nondet_uptr(); in_order = nondet_int(); XV_ASSUME(in_order == mo_relaxed || in_order == mo_consume || in_order == mo_acquire || in_order == mo_seq_cst);
-  _Bool r = g_acquire_if_equal(&ga, &g_src, in_expected, in_order);
+  _Bool r = g_acquire_if_equal_seq(&ga, &g_src, in_expected, in_order);
   XV_OBL("he.guard_ops.operand_frame", guard_eq(&gb, &pre_b) && g_src == in_src && era_clock == pre_clock);
   if (xv_threw) {
     XV_OBL("he.alloc.exhausted_throws", xv_threw == XV_EXC_bad_hazard_era_alloc && in_src == in_expected && in_src != 0 && pre_td.hint == 0 && pre_td.control_block != 0 &&
@@ -853,6 +878,9 @@ void h_guards(void) {
 #endif
 }
 
+/* the guard's slot published, before the load that produced the result and unchanged since, an era between the construction era of the
+ * object incarnation that load saw and the era clock at that load (see the comment at the monitors) */
+#define PROTECTS (ga.he != 0 && ga.he->value.mark == 0 && ga.he == mon_last_src_he && slot_era(ga.he) == mon_last_src_slot_era && (!mon_slot_stored || mon_last_slot_store_clk < mon_last_src_clk) && mon_last_src_ctor <= slot_era(ga.he) && slot_era(ga.he) <= mon_last_src_eraclk)
 /* =====================================================  guard level (INT)  ===================================================== */
 void h_int(void) {
 #ifdef XV_INT
@@ -873,6 +901,7 @@ void h_int(void) {
       XV_OBL("he.acquire.snapshot", mon_src_loads >= 1 && mon_last_src_clk >= g_clk0 && ga.ptr == mon_last_src_val);
       if (MP_get(ga.ptr) != 0)
         XV_OBL("he.acquire.era_stable", ga.he != 0 && ga.he->value.mark == 0 && slot_era(ga.he) == mon_last_era_val && mon_last_era_clk > mon_last_src_clk);
+      if (MP_get(ga.ptr) != 0) XV_OBL("he.acquire.protects", PROTECTS);
       XV_OBL("he.acquire.sync", XV_IS_ACQUIRE(mon_last_src_order) && mon_last_src_order != mo_consume && !mon_src_load_unfenced);
       chk_guard_pair();
       if (MP_get(ga.ptr) != 0) XV_CANARY("int.acquire.nonnull");
@@ -891,18 +920,18 @@ void h_int(void) {
       XV_OBL("he.acquire_if_equal.exc_safe", xv_threw == XV_EXC_bad_hazard_era_alloc && gi1(&ga) && res.count_ok && g_td.hint == 0);
       XV_CANARY("int.aie.throw");
     } else {
-      XV_OBL("he.acquire_if_equal.iff", mon_src_loads >= 1 && mon_src_loads <= 2 && r == (mon_last_src_val == in_expected));
+      XV_OBL("he.acquire_if_equal.iff", mon_src_loads >= 1 && mon_last_src_clk >= g_clk0 && r == (mon_last_src_val == in_expected));
       if (r) {
-        XV_OBL("he.acquire_if_equal.iff", ga.ptr == in_expected && mon_first_src_val == in_expected);
+        XV_OBL("he.acquire_if_equal.iff", ga.ptr == in_expected);
         if (in_expected != 0) {
-          XV_OBL("he.acquire.era_stable", ga.he != 0 && ga.he->value.mark == 0 && slot_era(ga.he) == mon_last_era_val && mon_era_loads == 1 &&
-                 mon_last_era_clk > mon_first_src_clk && mon_last_src_clk > mon_last_era_clk);
-          XV_OBL("he.acquire.sync", XV_IS_ACQUIRE(mon_first_src_order) && mon_first_src_order != mo_consume && !mon_src_load_unfenced);
+          XV_OBL("he.acquire.era_stable", ga.he != 0 && ga.he->value.mark == 0 && slot_era(ga.he) == mon_last_era_val && mon_last_era_clk > mon_last_src_clk);
+          XV_OBL("he.acquire_if_equal.protects", PROTECTS);
+          XV_OBL("he.acquire.sync", XV_IS_ACQUIRE(mon_last_src_order) && mon_last_src_order != mo_consume && !mon_src_load_unfenced);
           XV_CANARY("int.aie.true");
         }
       } else {
         XV_OBL("he.acquire_if_equal.iff", guard_empty(&ga));
-        if (mon_src_loads == 2) XV_CANARY("int.aie.false_second"); else XV_CANARY("int.aie.false_first");
+        if (mon_src_loads >= 2) XV_CANARY("int.aie.false_second"); else XV_CANARY("int.aie.false_first");
       }
       chk_guard_pair(); XV_OBL("he.guard_ops.empty_holds_no_slot", gi2(&ga));
     }
